@@ -23,6 +23,8 @@ func runApiSuite(suite string, rng *Rng, thorough bool, s *Sink) bool {
 		suiteC09(rng, thorough, s)
 	case "c05api":
 		suiteC05api(rng, thorough, s)
+	case "c06api":
+		suiteC06api(rng, thorough, s)
 	case "c10":
 		suiteC10(rng, thorough, s)
 	case "c11":
@@ -55,14 +57,22 @@ func fieldsOut(fl veconst.FieldList) string { return fieldsStr(fl.Fields()) }
 // readOne: one register read through a fresh RegisterApi on a reactive device
 func readOne(it poolItem, o outcome) (out string, val any) {
 	dev := NewDevPort(0xA231)
-	reg := it.reg()
 	if o.ans != nil {
-		dev.Regs[reg.Address()] = *o.ans
+		dev.Regs[it.reg().Address()] = *o.ans
 	}
+	return readOneDev(it, o, dev)
+}
+
+func readOneDev(it poolItem, o outcome, dev *DevPort) (out string, val any) {
 	api, err := connectApi(dev)
 	if err != nil {
 		return "connect-failed", nil
 	}
+	return readVia(api, it, o)
+}
+
+func readVia(api *vedirectapi.RegisterApi, it poolItem, o outcome) (out string, val any) {
+	reg := it.reg()
 	defer func() {
 		if r := recover(); r != nil {
 			out = "PANIC"
@@ -104,6 +114,71 @@ func readOne(it poolItem, o outcome) (out string, val any) {
 }
 
 var opOfKind = map[int]string{1: "RN", 2: "RT", 3: "RE", 4: "RF"}
+
+// suiteC06api: C06 at the level of the register API - every reader of every register definition against a device that is
+// silent, answers with garbage, answers once with a value of an odd width and then falls silent, or refuses: the call
+// returns (no panic) after at most eight command frames. Decided by the oracle alone (no model line).
+func suiteC06api(rng *Rng, thorough bool, s *Sink) {
+	pool := buildPool()
+	type variant struct {
+		name   string
+		ans    *DevAnswer
+		raw    []byte
+		silent int
+	}
+	variants := []variant{
+		{"silent", nil, nil, -1},
+		{"garbage", &DevAnswer{}, []byte("\r\nV\t12800\r\nChecksum\t\x07:7"), -1},
+		{"bad-check", &DevAnswer{}, []byte(":7F0ED009600DC\n"), -1},
+		{"width3-then-silent", &DevAnswer{0, []byte{1, 2, 3}}, nil, 1},
+		{"width0", &DevAnswer{0, nil}, nil, -1},
+		{"width9", &DevAnswer{0, rng.Bytes(9)}, nil, -1},
+		{"width64", &DevAnswer{0, rng.Bytes(64)}, nil, -1},
+		{"width3", &DevAnswer{0, []byte{0xFF, 0xFF, 0xFF}}, nil, -1},
+		{"flag2", &DevAnswer{2, nil}, nil, -1},
+		{"flag8", &DevAnswer{8, []byte{1}}, nil, -1},
+		{"foreign", &DevAnswer{}, simGet(0x1234, 0, []byte{1, 2}), -1},
+		{"one-ok-then-silent", &DevAnswer{0, []byte{1, 0}}, nil, 1},
+	}
+	for idx, it := range pool {
+		if !thorough && idx%3 != 0 && it.kind == 1 && !it.n.Signed() {
+			continue
+		}
+		for _, v := range variants {
+			dev := NewDevPort(0xA231)
+			if v.ans != nil {
+				dev.Regs[it.reg().Address()] = *v.ans
+			}
+			if v.raw != nil {
+				dev.RawRegs = map[uint16][]byte{it.reg().Address(): v.raw}
+			}
+			// connect first (ping + id), then count the frames of the register access alone
+			var out string
+			before := 0
+			func() {
+				dev.SilentAfter = -1
+				o := outcome{ans: &DevAnswer{}}
+				if v.ans != nil {
+					o.ans = v.ans
+				}
+				// readOneDev connects itself: 2 frames for the handshake
+				before = 2
+				dev.SilentAfter = v.silent
+				out, _ = readOneDev(it, o, dev)
+			}()
+			frames := len(dev.Frames) - before
+			op := fmt.Sprintf("A6 %s %d %s", opOfKind[it.kind], idx, v.name)
+			res := fmt.Sprintf("%s frames=%d", strings.SplitN(out, "@", 2)[0], frames)
+			s.Line(fmt.Sprintf("kind%d-%s", it.kind, v.name), op, res)
+			if out == "PANIC" {
+				s.Violate(op, res, fmt.Sprintf("reading register %s (%s device) panics", it.reg().Name(), v.name))
+			}
+			if frames > 8 {
+				s.Violate(op, res, fmt.Sprintf("reading register %s (%s device) wrote %d command frames: more than eight per register access", it.reg().Name(), v.name, frames))
+			}
+		}
+	}
+}
 
 func suiteC09(rng *Rng, thorough bool, s *Sink) {
 	pool := buildPool()
@@ -187,6 +262,34 @@ func suiteC09(rng *Rng, thorough bool, s *Sink) {
 			out, _ := readOne(it, o)
 			s.Line(fmt.Sprintf("kind%d-%s", it.kind, strings.SplitN(o.tok, ":", 2)[0]), op, out)
 			if v := oracleC09(it, reg, o, out); v != "" {
+				s.Violate(op, out, v)
+			}
+		}
+		// the same register read again through the same RegisterApi after the device's content changed (and after it
+		// refused): the reader reports what the device holds now
+		for k := 0; k < 4 && len(outs) > 6; k++ {
+			dev := NewDevPort(0xA231)
+			first := outs[5+rng.Intn(len(outs)-5)]
+			if k == 1 {
+				first = outs[1+rng.Intn(3)] // a refusal first
+			}
+			if first.ans != nil {
+				dev.Regs[reg.Address()] = *first.ans
+			}
+			api, err := connectApi(dev)
+			if err != nil {
+				continue
+			}
+			_, _ = readVia(api, it, first)
+			second := outs[5+rng.Intn(len(outs)-5)]
+			delete(dev.Regs, reg.Address())
+			if second.ans != nil {
+				dev.Regs[reg.Address()] = *second.ans
+			}
+			out, _ := readVia(api, it, second)
+			op := fmt.Sprintf("%s %d %s mut:second-read-on-this-api-after-%s", opOfKind[it.kind], idx, second.tok, strings.SplitN(first.tok, ":", 2)[0])
+			s.Line(fmt.Sprintf("kind%d-reread", it.kind), op, out)
+			if v := oracleC09(it, reg, second, out); v != "" {
 				s.Violate(op, out, v)
 			}
 		}
@@ -389,31 +492,36 @@ func suiteC10(rng *Rng, thorough bool, s *Sink) {
 			how     string
 			fail    int // index into planned order (-1 none)
 			failTok string
+			flag    byte // failTok err:other realised by a reserved response flag instead of silence
+			warm    bool // the measured run is the second one on this RegisterApi: a complete healthy run precedes it
 		}
 		var scens []scen
-		scens = append(scens, scen{"1111", -1, "", -1, ""})
+		scens = append(scens, scen{hs: "1111", cancel: -1, fail: -1})
 		for h := 0; h < 16; h++ { // every subset of nil handlers
-			scens = append(scens, scen{fmt.Sprintf("%04b", h), -1, "", -1, ""})
+			scens = append(scens, scen{hs: fmt.Sprintf("%04b", h), cancel: -1, fail: -1})
 		}
 		posStep := 1
 		if !thorough && total > 12 && pi > 1 {
 			posStep = 3
 		}
 		for k := 0; k <= total; k += posStep { // a cancellation at every position
-			scens = append(scens, scen{"1111", k, []string{"callback", "write", "before"}[k%2], -1, ""})
+			scens = append(scens, scen{hs: "1111", cancel: k, how: []string{"callback", "write", "before"}[k%2], fail: -1, warm: k%5 == 4})
 			if k == 0 {
 				scens[len(scens)-1].how = "before"
 			}
 		}
 		for k := 0; k < total; k += posStep { // a device failure at every register position
-			scens = append(scens, scen{"1111", -1, "", k, []string{"err:other", "err:unknown-id", "err:not-supported", "err:parameter-error"}[rng.Intn(4)]})
+			scens = append(scens, scen{hs: "1111", cancel: -1, fail: k, failTok: []string{"err:other", "err:unknown-id", "err:not-supported", "err:parameter-error"}[rng.Intn(4)]})
+			// the same on a RegisterApi that has already completed a healthy run, and with a refusal by a reserved flag
+			scens = append(scens, scen{hs: "1111", cancel: -1, fail: k, failTok: []string{"err:other", "err:unknown-id", "err:not-supported"}[rng.Intn(3)], warm: true})
+			scens = append(scens, scen{hs: "1111", cancel: -1, fail: k, failTok: "err:other", flag: []byte{0x08, 0x10, 0x20, 0x40, 0x80, 0xF8}[rng.Intn(6)]})
 			if k%4 == 0 {
-				scens = append(scens, scen{[]string{"1010", "0111", "1101"}[rng.Intn(3)], rng.Intn(total + 1), "callback", k, "err:other"})
+				scens = append(scens, scen{hs: []string{"1010", "0111", "1101"}[rng.Intn(3)], cancel: rng.Intn(total + 1), how: "callback", fail: k, failTok: "err:other"})
 			}
 		}
 		_ = all
 		for _, sc := range scens {
-			runStream(s, pl.spec, pl.rl, regs, sc.hs, sc.cancel, sc.how, sc.fail, sc.failTok)
+			runStream(s, pl.spec, pl.rl, regs, sc.hs, sc.cancel, sc.how, sc.fail, sc.failTok, sc.flag, sc.warm)
 		}
 	}
 }
@@ -442,7 +550,7 @@ func plannedOf(rl veregister.RegisterList, hs string) (addrs []uint16, names []s
 	return
 }
 
-func runStream(s *Sink, spec string, rl veregister.RegisterList, regs map[uint16]DevAnswer, hs string, cancel int, how string, fail int, failTok string) {
+func runStream(s *Sink, spec string, rl veregister.RegisterList, regs map[uint16]DevAnswer, hs string, cancel int, how string, fail int, failTok string, flag byte, warm bool) {
 	pAddrs, pNames := plannedOf(rl, hs)
 	dev := NewDevPort(0xA231)
 	var mp []string
@@ -460,7 +568,10 @@ func runStream(s *Sink, spec string, rl veregister.RegisterList, regs map[uint16
 		if a == failAddr {
 			switch failTok {
 			case "err:other":
-				continue // silent
+				if flag == 0 {
+					continue // silent
+				}
+				ans = DevAnswer{flag, ans.Payload} // refused with a reserved flag (and the value behind it)
 			case "err:unknown-id":
 				ans = DevAnswer{1, nil}
 			case "err:not-supported":
@@ -478,6 +589,18 @@ func runStream(s *Sink, spec string, rl veregister.RegisterList, regs map[uint16
 	api, err := connectApi(dev)
 	if err != nil {
 		return
+	}
+	if warm {
+		// a complete, healthy run on the same RegisterApi first; nothing of it may carry over
+		failing := dev.Regs
+		dev.Regs = map[uint16]DevAnswer{}
+		for a, ans := range regs {
+			dev.Regs[a] = ans
+		}
+		_, _ = api.ReadRegisterList(context.Background(), rl)
+		_ = api.StreamRegisterList(context.Background(), rl, vedirectapi.ValueHandler{Number: func(vedirectapi.NumberRegisterValue) {}, Text: func(vedirectapi.TextRegisterValue) {},
+			Enum: func(vedirectapi.EnumRegisterValue) {}, FieldList: func(vedirectapi.FieldListValue) {}})
+		dev.Regs = failing
 	}
 	ctx, cancelFn := context.WithCancel(context.Background())
 	defer cancelFn()
@@ -572,6 +695,12 @@ func runStream(s *Sink, spec string, rl veregister.RegisterList, regs map[uint16
 		m = "-"
 	}
 	op := fmt.Sprintf("ST %s %s %s %s", hs, c, spec, m)
+	if warm {
+		op += " mut:second-run-on-this-api"
+	}
+	if flag != 0 {
+		op += fmt.Sprintf(" mut:refused-with-flag-%02X", flag)
+	}
 	out := strings.Join(events, ";") + " -> " + res + " M=" + strings.Join(ms, ";")
 	tag := "stream"
 	if cancel >= 0 {
@@ -724,6 +853,9 @@ func suiteC11(rng *Rng, thorough bool, s *Sink) {
 		s.Line(tag, op, out)
 		// the property, directly
 		supported := productClass(p) != ""
+		if err != nil && api != nil {
+			s.Violate(op, out, fmt.Sprintf("device id 0x%04X: connect returned an error together with an object (\"an error and no object\")", id))
+		}
 		if supported != (err == nil && api != nil) {
 			s.Violate(op, out, fmt.Sprintf("device id 0x%04X (%q): known product of a supported type = %v, but connect gave %s", id, p.String(), supported, out))
 		}
